@@ -347,7 +347,7 @@ def run_cases(harness, cases, asan=False, per_case_timeout=60, jobs=16, env=None
             rc1, out1, err1 = run_harness(harness, c[1], timeout=per_case_timeout, asan=asan, env=env)
             if rc1 == -999:
                 timeouts.append(c[0])
-            res.append((out1, None if rc1 == 0 else (c[0], rc1, err1[-3000:])))
+            res.append((out1, None if rc1 == 0 else (c[0], rc1, (err1 if len(err1) <= 6000 else err1[:2500] + "\n[...]\n" + err1[-3500:]))))
         return res
 
     M, allc, crashes = None, {}, []
